@@ -791,9 +791,10 @@ pub fn supervisor_main(p: &Property, tier: Tier, extra: Option<&ExtraEvidence>) 
     // evidence
     let wall = t0.elapsed().as_secs_f64();
     let mut known_lines = vec![];
-    for (sig, (n, what)) in &total.known {
-        let text = known_findings().iter().find(|k| &k.sig == sig).map(|k| truncate(&k.text, 160)).unwrap_or_else(|| what.clone());
-        known_lines.push(format!("KNOWN-FINDING: property={} sig={} cases={} {}", p.id, sig, n, text));
+    // one line per finding listed for this property (with the number of cases of this run that showed it)
+    for k in known_findings().iter().filter(|k| k.property == p.id) {
+        let n = total.known.get(&k.sig).map(|x| x.0).unwrap_or(0);
+        known_lines.push(format!("KNOWN-FINDING: property={} sig={} cases={} {}", p.id, k.sig, n, truncate(&k.text, 160)));
     }
     write_evidence(p, tier, seed, &total, wall, violations.len(), extra, inconclusive.as_deref());
 
